@@ -37,7 +37,7 @@ PROPS = {
                       "core/src/report/eval/*: SingleAmount::with_sign_of, Mul<Decimal>, Amount += PostingAmount/SingleAmount"],
         "assumptions": [L0_DECIMAL, L0_HANDLES, L0_STD, L1_AMOUNT, L1_BOOK, STUBS,
                         "R10: the loop that fills converted_amount in check_balance is dropped (its two divisions are kept as obligations; it only assigns p.converted_amount)"],
-        "not_decided": ["the winnow parser producing the syntax tree", "Amount::round / maybe_pair / is_zero bodies (L1)"],
+        "not_decided": ["the winnow parser producing the syntax tree", "Evaluable::eval_mut glue (closure capturing the context); that compute_from_syntax is a function of its inputs"],
     },
     "C02": {
         "level": "proof",
